@@ -149,6 +149,7 @@ def check(ctx):
     _r7_reader_buffers(ctx)
     _r8_text_readers(ctx)
     _r9_whole_file_loaders(ctx)
+    _r10_xdr_readers(ctx)
 
 
 # ---------------------------------------------------------------------------------------------
@@ -933,3 +934,86 @@ def _r9_whole_file_loaders(ctx):
                         if kw.get("topology") is not want_top or (ai is not None and subs != [ai]):
                             why.append("the topology handed over is the %s" % getattr(kw.get("topology"), "tag", kw.get("topology")))
                     ctx.decide(not why, "C02-R4", lf, rel, lname, desc + ": the frames, atoms and times of the definition", "", "; ".join(why))
+
+
+# ---------------------------------------------------------------------------------------------
+def _r10_xdr_readers(ctx):
+    """XTCTrajectoryFile._read / TRRTrajectoryFile._read (Cython, desugared by sa/pyxfront.py) evaluated by sa/tensym.py on a model file of 7 frames:
+    read_xtc / read_trr is summarised as "store the next frame of the file through the pointers given, or report end of file" (the assumption listed for
+    this property), self.seek as "set the position".  For both ways the class strides - reading and discarding (no offsets cached) and seeking (offsets
+    cached, i.e. after len() / seek()) - successive _read(n, atoms, stride) calls return the frames of the definition (P, P+s, ... from the cursor P) and
+    end with an empty read; the sequence is what iterload(chunk, stride, skip) performs."""
+    from ..tensym import TenSym, Ten, Obj, Raised
+    from ..pysym import Unsupported as PUnsupported
+    NF, NA = 7, 3
+    for key, reader in (("xtc", "xdrlib.read_xtc"), ("trr", "trrlib.read_trr")):
+        rel, cls = F.rel_cls(key)
+        fn = F.method(ctx, key, "_read")
+        q = cls + "._read"
+        for efficient in (False, True):
+            mode = "offsets cached (seek between the frames)" if efficient else "no offsets cached (frames in between are read and dropped)"
+            desc = "%s: successive _read(n, atoms, stride) calls return the frames of the definition and come to an end" % mode
+            why, undec, n_seq = [], None, 0
+            for start, n, stride, sel in ((0, 2, 1, None), (2, 2, 2, None), (1, 2, 3, None), (2, 3, 2, [2, 0])):
+                n_seq += 1
+                sdesc = "_read(%d, %s, stride=%d) from frame %d of %d" % (n, "atoms %s" % sel if sel else "all atoms", stride, start, NF)
+                X = Ten.sym("x", (NF, NA, 3))
+                st = {"phys": start}
+                me = Obj(tag="file", n_atoms=NA, frame_counter=start, _offsets=("offsets" if efficient else None), fh="FH", n_frames=NF, _lenient=True)
+
+                def seek(offset, whence=0, _me=me, _st=st):
+                    pos = offset if whence == 0 else _me.frame_counter + offset
+                    _me.frame_counter = pos
+                    _st["phys"] = pos
+                me.seek = seek
+
+                def rd(ev, call, _st=st, _X=X):
+                    if _st["phys"] >= NF:
+                        return 11
+                    f = _st["phys"]
+                    _st["phys"] += 1
+                    for a in call.args[2:]:
+                        if not isinstance(a, ast.Subscript):
+                            continue
+                        base = ev.ex(a.value)
+                        if not isinstance(base, Ten):
+                            continue
+                        idx = a.slice.elts if isinstance(a.slice, ast.Tuple) else [a.slice]
+                        k = ev.concrete(ev.ex(idx[0]))
+                        if base.ndim == 3 and base.shape[1:] == (NA, 3) and "x" in src(a.value).lower().replace("box", ""):
+                            for j in range(NA * 3):
+                                base.data[k * NA * 3 + j] = _X.data[f * NA * 3 + j]
+                        elif base.ndim == 2 and base.shape == (NA, 3):
+                            for j in range(NA * 3):
+                                base.data[j] = _X.data[f * NA * 3 + j]
+                    return 0
+                P = start
+                try:
+                    for it in range(6):
+                        ts = TenSym({}, models={reader: rd})
+                        ts.module_env = {"_EXDROK": 0, "_EXDRENDOFFILE": 11, "_EXDR_ERROR_MESSAGES": {}, "_EXDRHEADER": 1, "NULL": None}
+                        r = ts.run_fn(fn, self=me, n_frames=n, atom_indices=sel, stride=stride)
+                        xyz = r[0]
+                        want = [f_ for f_ in range(P, NF, stride)][:n]
+                        atoms = sel if sel is not None else list(range(NA))
+                        exp = [X.data[(f_ * NA + a_) * 3 + k_] for f_ in want for a_ in atoms for k_ in range(3)]
+                        ok = isinstance(xyz, Ten) and xyz.shape[0] == len(want) and all(_same(p_, q_) for p_, q_ in zip(xyz.data, exp)) and len(xyz.data) == len(exp)
+                        if not ok:
+                            firsts = [("uninitialised memory" if "undef" in repr(xyz.data[i_ * len(atoms) * 3]) else "frame " + repr(xyz.data[i_ * len(atoms) * 3]).split("[")[1].split(",")[0]) for i_ in range(xyz.shape[0])] \
+                                if isinstance(xyz, Ten) and xyz.ndim == 3 else getattr(xyz, "shape", xyz)
+                            why.append("%s: call %d returns %s, the definition gives frames %s" % (sdesc, it + 1, firsts, want))
+                            break
+                        P = min(NF, P + n * stride)
+                        if not want:
+                            break
+                    else:
+                        why.append("%s: the reads never come to an end" % sdesc)
+                except Raised as e:
+                    why.append("%s: raises %s" % (sdesc, e.exc or e))
+                except PUnsupported as e:
+                    undec = "%s: not evaluable: %s" % (sdesc, e)
+            if undec and not why:
+                ctx.undecided("C02-R3", fn, rel, q, desc, undec)
+            else:
+                ctx.decide(not why, "C02-R3", fn, rel, q, desc, "%d sequences" % n_seq,
+                           "; ".join(why[:3]) + ": iterload(chunk, stride, skip) / repeated read() return frames that slicing the whole file does not, and need not terminate")
